@@ -5,6 +5,9 @@ _COMMON = [
 SPEC = dict(
     lsan=True,
     harness=['h_list.c'],
+    # 'clang': the library compiled by clang 14; 'o2': the optimisation level and aliasing rules of the release build; half of the cases each
+    configs=lambda tier: [dict(name='default'), dict(name='clang', libcc='clang', nworkers=4, of=8), dict(name='o2', libflavour='san-o2', libdrop=['-fno-strict-aliasing'], nworkers=4, of=8)],
+    parallel_configs=3,
     level='exploration',
     memcheck_cases={'thorough': 1600},
     rule='seeded histories of 40-110 operations, one third each on (a) two list.h rings + 20 nodes: add_next/add_prev/add_node, del_node/del_next/'
